@@ -60,6 +60,7 @@ from gapic.schema import mixins
 from gapic.schema import wrappers
 from gapic.schema import naming as api_naming
 from gapic.utils import cached_property
+from gapic.utils import verif_trace
 from gapic.utils import nth
 from gapic.utils import Options
 from gapic.utils import to_snake_case
@@ -549,6 +550,10 @@ class API:
                         )
                         if proto_to_generate:
                             new_all_protos[name] = proto_to_generate
+                    if verif_trace.ENABLED:
+                        verif_trace.selective_event(
+                            "prune", selective_gapic_methods, address_allowlist
+                        )
 
                 api = cls(
                     naming=naming,
@@ -556,6 +561,8 @@ class API:
                     service_yaml_config=service_yaml_config,
                 )
 
+        if verif_trace.ENABLED:
+            verif_trace.api_built(api, package, opts)
         return api
 
     @cached_property
